@@ -61,6 +61,17 @@ def partner_rows(lmax):
     return q, ms
 
 
+@functools.lru_cache(None)
+def lowering_rows(lmax):
+    """For sin(phi) dY_lm/dphi = l cos(phi) Y_lm - c_lm Y_(l-1),m: row of (l-1, m) (-1 when |m| = l) and
+    c_lm = sqrt((2l+1)(l^2-m^2)/(2l-1))."""
+    ls, ms = row_lm(lmax)
+    lower = np.array([row_of(int(l) - 1, int(m)) if abs(int(m)) <= int(l) - 1 else -1 for l, m in zip(ls, ms)])
+    lf, mf = ls.astype(float), ms.astype(float)
+    coef = np.where(lower >= 0, np.sqrt((2 * lf + 1) * (lf * lf - mf * mf) / np.maximum(2 * lf - 1, 1)), 0.0)
+    return lower, coef
+
+
 # ------------------------------------------------------------------ numerical differentiation
 @functools.lru_cache(None)
 def _cheb(n):
